@@ -156,11 +156,27 @@ def gen_c(rng, sc, tier):
                 c["tls"] = tcfg
         ci["server"]["default_ops"] = sc.upstream_handshake(ci) + [op("sleep", ms=50), op("shutdown"), op("recv_eof", timeout_ms=10000)]
     li = sc.add_http_listener("l")
+    companion = ck in ("http", "socks") and rng.random() < 0.4
+    t_main = 20
+    if companion:
+        # a second connector to the very same upstream that does not verify it, used first: what it learned about the
+        # upstream (a TLS session, a cached verdict) must not vouch for the upstream on the strict connector
+        import copy
+        c2 = copy.deepcopy([c for c in sc.cfg["connectors"] if c["name"] == "u"][0])
+        c2["name"] = "u2"
+        c2["tls"] = sc.tls_client(insecure=True)
+        sc.cfg["connectors"].append(c2)
+        l2 = sc.add_http_listener("l2")
+        sc.rule("u2", 'request.listener == "l2"')
+        for k in range(rng.randint(1, 2)):
+            hs2, _ = sc.client_handshake(l2, "10.9.9.8", 80)
+            sc.add_client("c2-%d" % k, l2, [dict(o, on_fail="continue", timeout_ms=15000) for o in hs2] + [op("recv_eof", timeout_ms=15000, label="rest", on_fail="continue")], start_ms=20 + 300 * k)
+        t_main = 1500
     sc.rule("u")
     hs, proto = sc.client_handshake(li, "10.9.9.9", 80)
-    sc.add_client("c", li, [dict(o, on_fail="continue", timeout_ms=15000) for o in hs] + [op("recv_eof", timeout_ms=15000, label="rest", on_fail="continue")], start_ms=20)
-    sc.meta.update({"part": "c", "ck": ck, "insecure": insecure, "cert": cert, "ca": ca, "proto": proto,
-                    "cls": "c/%s/ins%d/%s/%s" % (ck, insecure, cert, ca), "cfgkey": "c/%s/%d/%s/%s" % (ck, insecure, cert, ca)})
+    sc.add_client("c", li, [dict(o, on_fail="continue", timeout_ms=15000) for o in hs] + [op("recv_eof", timeout_ms=15000, label="rest", on_fail="continue")], start_ms=t_main)
+    sc.meta.update({"part": "c", "ck": ck, "insecure": insecure, "cert": cert, "ca": ca, "proto": proto, "companion": companion,
+                    "cls": "c/%s/ins%d/%s/%s%s" % (ck, insecure, cert, ca, "/companion" if companion else ""), "cfgkey": "c/%s/%d/%s/%s" % (ck, insecure, cert, ca)})
     sc.max_ms = 60000
 
 
@@ -258,7 +274,18 @@ def oracle(plan, out):
         return V
     # part c
     told = reply_ok("http", R.op_by_label("c", "reply"))
-    used = any(r.get("label") == "upreq" and r.get("res") == "ok" for r in R.records)
+    used = False
+    for r in R.records:
+        if r.get("label") == "upreq" and r.get("res") == "ok":
+            # (with a companion connector the upstream also sees the lenient connector's requests: only ours counts)
+            try:
+                m_, target_, _, _, _ = rc.parse_http_request(bytes.fromhex(r["hex"])) if meta["ck"] == "http" else (None, None, None, None, None)
+            except rc.ParseError:
+                target_ = None
+            if meta["ck"] != "http":
+                used = used or not meta.get("companion") or bytes.fromhex(r["hex"]).find(bytes([10, 9, 9, 9])) >= 0
+            else:
+                used = used or (target_ or b"").startswith(b"10.9.9.9:")
     valid = (meta["cert"] == "server-good" and meta["ca"] == "ca1.crt") or (meta["cert"] == "server-foreign" and meta["ca"] == "ca2.crt")
     if not meta["insecure"] and not valid and (told or used):
         v("tunnel-through-unverified-upstream", "c/%s" % meta["ck"], "connector %s without 'insecure' (CA %s): upstream presented %s, yet %s" % (
